@@ -92,7 +92,13 @@ fn write_archive(dir: &Path, bands: &Value) {
             std::fs::write(bdir.join(format!("i/00000/{:09}", n)), snap::raw::Encoder::new().compress_vec(&data).unwrap()).unwrap();
         }
         if b["closed"].as_bool().unwrap_or(true) {
-            std::fs::write(bdir.join("BANDTAIL"), format!("{{\"end_time\":0,\"index_hunk_count\":{}}}\n", hunks.len())).unwrap();
+            // "tail_count": null = no count recorded (old archives); a number = exactly that (possibly wrong) count
+            let tail = if b.get("tail_count").is_some() && b["tail_count"].is_null() {
+                "{\"end_time\":0}\n".to_string()
+            } else {
+                format!("{{\"end_time\":0,\"index_hunk_count\":{}}}\n", b["tail_count"].as_u64().unwrap_or(hunks.len() as u64))
+            };
+            std::fs::write(bdir.join("BANDTAIL"), tail).unwrap();
         }
     }
 }
